@@ -40,7 +40,7 @@ theorem startsWith_of_append (s a b : List Char) (h : startsWith s (a ++ b) = tr
 theorem isInfix_of_append (a b s : List Char) (h : isInfix (a ++ b) s = true) : isInfix a s = true := by
   induction s with
   | nil =>
-    simp only [isInfix, List.isEmpty_iff, List.append_eq_nil_iff, decide_eq_true_eq] at h
+    simp only [isInfix, List.isEmpty_iff, List.append_eq_nil_iff] at h
     simp [isInfix, h.1]
   | cons x xs ih =>
     simp only [isInfix, Bool.or_eq_true] at h ⊢
